@@ -33,3 +33,32 @@ Theorem c15_evict_without_release_refuted :
   ~ (forall s, reachable' s -> owner s = ∅ -> (forall i, out s i = 0%nat) -> forall i, cnt s i = 0%Z).
 Proof. exact Refcount.all_released_refuted. Qed.
 Print Assumptions c15_evict_without_release_refuted.
+
+(* ---------------------------------------------------------------------------------------------- *)
+(* REGENERATED FROM THE SOURCE ON EVERY RUN (tools/gen -> Generated.g_code; Decisions.v) *)
+From GK Require Import GExpr Generated Decisions.
+From Coq Require Import String List.
+Import ListNotations.
+
+(* every place where the code takes or gives back an item reference (the events of Refcount.v) *)
+Theorem c15_reference_sites_are_source :
+  (* Exist gives back the reference GetItem took *)
+  body "Collection.Exist" =
+    [SAssign [GVar "val"; GVar "_"] ":=" [GCall "t.GetItem" [GVar "key"; GVar "false"]];
+     SIf [] (GBin "!=" (GVar "val") GNil)
+       [SExpr (GCall "t.store.ItemDecRef" [GVar "t"; GVar "val"]); SReturn [GVar "true"]] [];
+     SReturn [GVar "false"]] /\
+  (* Len and CopyTo give back the reference MinItem took, CopyTo once per collection (inside its loop) *)
+  In (SDefer (GCall "t.store.ItemDecRef" [GVar "t"; GVar "si"])) (body "Collection.Len") /\
+  In (SDefer (GCall "s.ItemDecRef" [GVar "srcColl"; GVar "minItem"]))
+     (match nth_error (body "Store.CopyTo") 4 with Some (SRange _ _ _ b) => b | _ => [] end) /\
+  (* GetItem takes exactly one reference for the caller, as its last call; SetItem one for the tree, before union *)
+  count_occ string_dec (call_list "Collection.GetItem") "t.store.ItemAddRef" = 1%nat /\
+  last (call_list "Collection.GetItem") "" = "t.store.ItemAddRef" /\
+  count_occ string_dec (call_list "Collection.SetItem") "t.store.ItemAddRef" = 1%nat /\
+  before "t.store.ItemAddRef" "t.store.union" (call_list "Collection.SetItem") = true /\
+  (* a freed node releases its item; an item evicted during a visit is released *)
+  In "t.store.ItemDecRef" (call_list "Collection.freeNodeUnlocked") /\
+  existsb (has_sub "o.ItemDecRef(t, i)") (call_list "Store.visitNodes") = true.
+Proof. exact Decisions.reference_sites. Qed.
+Print Assumptions c15_reference_sites_are_source.
